@@ -9,14 +9,21 @@
 From RM Require Import RingModel FullSync Chan.
 
 Inductive mres := MSendOk (v : Z) | MYield (i : nat) (v : Z) | MPending (i : nat) | MEnd (i : nat) | MCreated (i : Z) | MDropped (i : nat) | MNoStream | MCountR (n : Z).
-Inductive mop := MoSend (v : Z) | MoPoll (i : nat) | MoDrive (i : nat) | MoCreate | MoDrop (i : nat) | MoCount.
+Inductive mop := MoSend (v : Z) | MoPoll (i : nat) | MoDrive (i : nat) | MoCreate | MoDrop (i : nat) | MoCount | MoCreateS | MoDropS (i : nat).
 Inductive mpc :=
 | MIdle
 | MSendU (v : Z) (j : nat) | MSendQ (v : Z) (j : nat) (id : nat) | MSendW (v : Z) (j : nat) (id : nat) (full : bool) (w : wpc)
 | MDrive (i : nat) | MPollQ (i : nat) (drv : bool) | MPollK (i : nat) (drv : bool) | MReg (i : nat) (r : rpc) (drv : bool) | MParked (i : nat)
-| MCreate | MDrop (i : nat) | MNo | MCount.
+| MCreate | MDrop (i : nat) | MNo | MCount
+(* stepped listener creation / removal (C17): one shared access per pc *)
+| KC1 | KC2 | KC3 | KC4 (id : option nat) | KC5 (id : nat)
+| KD1 (i : nat) | KD2 (i : nat) | KD3 (i : nat) | KD4 (i : nat) | KD5 (i : nat) | KD6 (i : nat) | KD7 (i : nat)
+| KSL (r : mres) | KSW (r : mres) (snap : list Z) (j : nat) | KSU (r : mres).
 
-Record mst := { rings : nat -> st; msm : sm; vacant : list nat; alive : nat -> bool; mthr : nat -> mpc; mlog : list (nat * mres) }.
+(* the streams manager's cells that matter only when listeners come and go: the used_streams array itself (rebuilt cell by
+   cell), the three counters, streams_lock and the vacant queue's guard *)
+Record mext := { usedarr : nat -> Z; ucnt : Z; ccnt : Z; fcnt : Z; slock : bool; vlock : bool }.
+Record mst := { mx : mext; rings : nat -> st; msm : sm; vacant : list nat; alive : nat -> bool; mthr : nat -> mpc; mlog : list (nat * mres) }.
 
 Section Multi.
 Variable N : Z.
@@ -29,11 +36,13 @@ Definition L_USEDCNT : Z := 262.
 Definition used_list (vac : list nat) : list Z :=
   let live := filter (fun i => negb (existsb (Nat.eqb i) vac)) (seq 0 M) in
   map Z.of_nat live ++ repeat MAXID (M - length live).
-Definition used_at (s : mst) (j : nat) : Z := nth j (used_list (vacant s)) MAXID.
+Definition used_at (s : mst) (j : nat) : Z := usedarr (mx s) j.
+Definition arr_of (vac : list nat) : nat -> Z := fun j => nth j (used_list vac) MAXID.
 
-Definition mmk r m v a th l : mst := {| rings := r; msm := m; vacant := v; alive := a; mthr := th; mlog := l |}.
-Definition msetpc (s : mst) t p := mmk (rings s) (msm s) (vacant s) (alive s) (upd (mthr s) t p) (mlog s).
-Definition mfinish (s : mst) t r p := mmk (rings s) (msm s) (vacant s) (alive s) (upd (mthr s) t p) (mlog s ++ [(t, r)]).
+Definition mmk x r m v a th l : mst := {| mx := x; rings := r; msm := m; vacant := v; alive := a; mthr := th; mlog := l |}.
+Definition mkx u c cc fc sl vl : mext := {| usedarr := u; ucnt := c; ccnt := cc; fcnt := fc; slock := sl; vlock := vl |}.
+Definition msetpc (s : mst) t p := mmk (mx s) (rings s) (msm s) (vacant s) (alive s) (upd (mthr s) t p) (mlog s).
+Definition mfinish (s : mst) t r p := mmk (mx s) (rings s) (msm s) (vacant s) (alive s) (upd (mthr s) t p) (mlog s ++ [(t, r)]).
 Definition rstep_i (s : mst) (i t : nat) : st := step N norm sgn (rings s i) t.
 Definition ridle (x : st) (t : nat) : bool := match thr x t with Idle => true | _ => false end.
 Definition rres (x : st) : res := snd (last (log x) (0%nat, REmpty)).
@@ -44,8 +53,8 @@ Definition send_next (s : mst) (t : nat) (v : Z) (j : nat) : mst :=
 
 Definition after_mcons (s : mst) (x : st) (t i : nat) (drv : bool) : mst :=
   match rres x with
-  | RGot v => mmk (upd (rings s) i x) (msm s) (vacant s) (alive s) (upd (mthr s) t (if drv then MDrive i else MIdle)) (mlog s ++ [(t, MYield i v)])
-  | _ => mmk (upd (rings s) i x) (msm s) (vacant s) (alive s) (upd (mthr s) t (MPollK i drv)) (mlog s)
+  | RGot v => mmk (mx s) (upd (rings s) i x) (msm s) (vacant s) (alive s) (upd (mthr s) t (if drv then MDrive i else MIdle)) (mlog s ++ [(t, MYield i v)])
+  | _ => mmk (mx s) (upd (rings s) i x) (msm s) (vacant s) (alive s) (upd (mthr s) t (MPollK i drv)) (mlog s)
   end.
 
 Definition mstep (s : mst) (t : nat) : mst :=
@@ -54,61 +63,99 @@ Definition mstep (s : mst) (t : nat) : mst :=
   | MSendU v j =>
       let id := used_at s j in
       if id =? MAXID then mfinish s t (MSendOk v) MIdle
-      else let i := Z.to_nat id in mmk (upd (rings s) i (start (rings s i) t (OpPub v))) (msm s) (vacant s) (alive s) (upd (mthr s) t (MSendQ v j i)) (mlog s)
+      else let i := Z.to_nat id in mmk (mx s) (upd (rings s) i (start (rings s i) t (OpPub v))) (msm s) (vacant s) (alive s) (upd (mthr s) t (MSendQ v j i)) (mlog s)
   | MSendQ v j i =>
       let x := rstep_i s i t in
       if ridle x t then
         match rres x with
-        | ROk _ len => if len <=? 2 then mmk (upd (rings s) i x) (msm s) (vacant s) (alive s) (upd (mthr s) t (MSendW v j i false (W0 i))) (mlog s)
-                       else send_next (mmk (upd (rings s) i x) (msm s) (vacant s) (alive s) (mthr s) (mlog s)) t v (S j)
-        | _ => mmk (upd (rings s) i x) (msm s) (vacant s) (alive s) (upd (mthr s) t (MSendW v j i true (W0 i))) (mlog s)
+        | ROk _ len => if len <=? 2 then mmk (mx s) (upd (rings s) i x) (msm s) (vacant s) (alive s) (upd (mthr s) t (MSendW v j i false (W0 i))) (mlog s)
+                       else send_next (mmk (mx s) (upd (rings s) i x) (msm s) (vacant s) (alive s) (mthr s) (mlog s)) t v (S j)
+        | _ => mmk (mx s) (upd (rings s) i x) (msm s) (vacant s) (alive s) (upd (mthr s) t (MSendW v j i true (W0 i))) (mlog s)
         end
-      else mmk (upd (rings s) i x) (msm s) (vacant s) (alive s) (mthr s) (mlog s)
+      else mmk (mx s) (upd (rings s) i x) (msm s) (vacant s) (alive s) (mthr s) (mlog s)
   | MSendW v j i full w =>
       let '(m', w') := wstep (msm s) w in
       match w' with
-      | Some w'' => mmk (rings s) m' (vacant s) (alive s) (upd (mthr s) t (MSendW v j i full w'')) (mlog s)
-      | None => if full then mmk (upd (rings s) i (start (rings s i) t (OpPub v))) m' (vacant s) (alive s) (upd (mthr s) t (MSendQ v j i)) (mlog s)
-                else send_next (mmk (rings s) m' (vacant s) (alive s) (mthr s) (mlog s)) t v (S j)
+      | Some w'' => mmk (mx s) (rings s) m' (vacant s) (alive s) (upd (mthr s) t (MSendW v j i full w'')) (mlog s)
+      | None => if full then mmk (mx s) (upd (rings s) i (start (rings s i) t (OpPub v))) m' (vacant s) (alive s) (upd (mthr s) t (MSendQ v j i)) (mlog s)
+                else send_next (mmk (mx s) (rings s) m' (vacant s) (alive s) (mthr s) (mlog s)) t v (S j)
       end
   | MDrive i =>
       let x := step N norm sgn (start (rings s i) t OpCons) t in
-      if ridle x t then after_mcons s x t i true else mmk (upd (rings s) i x) (msm s) (vacant s) (alive s) (upd (mthr s) t (MPollQ i true)) (mlog s)
+      if ridle x t then after_mcons s x t i true else mmk (mx s) (upd (rings s) i x) (msm s) (vacant s) (alive s) (upd (mthr s) t (MPollQ i true)) (mlog s)
   | MPollQ i drv =>
       let x := rstep_i s i t in
-      if ridle x t then after_mcons s x t i drv else mmk (upd (rings s) i x) (msm s) (vacant s) (alive s) (mthr s) (mlog s)
+      if ridle x t then after_mcons s x t i drv else mmk (mx s) (upd (rings s) i x) (msm s) (vacant s) (alive s) (mthr s) (mlog s)
   | MPollK i drv => if keep (msm s) i then msetpc s t (MReg i R0 drv) else mfinish s t (MEnd i) MIdle
   | MReg i R0 drv => if wakers (msm s) i then mfinish s t (MPending i) (if drv then MParked i else MIdle) else msetpc s t (MReg i RL drv)
   | MReg i RL drv =>
       if wlock (msm s) then s
-      else mmk (rings s) {| wakers := wakers (msm s); keep := keep (msm s); wlock := true; notified := notified (msm s) |} (vacant s) (alive s)
+      else mmk (mx s) (rings s) {| wakers := wakers (msm s); keep := keep (msm s); wlock := true; notified := notified (msm s) |} (vacant s) (alive s)
                (upd (mthr s) t (MReg i RW drv)) (mlog s)
   | MReg i RW drv =>
-      mmk (rings s) {| wakers := upd (wakers (msm s)) i true; keep := keep (msm s); wlock := wlock (msm s); notified := notified (msm s) |} (vacant s) (alive s)
+      mmk (mx s) (rings s) {| wakers := upd (wakers (msm s)) i true; keep := keep (msm s); wlock := wlock (msm s); notified := notified (msm s) |} (vacant s) (alive s)
           (upd (mthr s) t (MReg i RU drv)) (mlog s)
   | MReg i RU drv =>
-      mmk (rings s) {| wakers := wakers (msm s); keep := keep (msm s); wlock := false; notified := notified (msm s) |} (vacant s) (alive s)
+      mmk (mx s) (rings s) {| wakers := wakers (msm s); keep := keep (msm s); wlock := false; notified := notified (msm s) |} (vacant s) (alive s)
           (upd (mthr s) t (MReg i RS drv)) (mlog s)
   | MReg i RS drv =>
-      mmk (rings s) {| wakers := wakers (msm s); keep := keep (msm s); wlock := wlock (msm s); notified := upd (notified (msm s)) i true |} (vacant s) (alive s)
+      mmk (mx s) (rings s) {| wakers := wakers (msm s); keep := keep (msm s); wlock := wlock (msm s); notified := upd (notified (msm s)) i true |} (vacant s) (alive s)
           (upd (mthr s) t (if drv then MParked i else MIdle)) (mlog s ++ [(t, MPending i)])
   | MParked i =>
       if notified (msm s) i then
-        mmk (rings s) {| wakers := wakers (msm s); keep := keep (msm s); wlock := wlock (msm s); notified := upd (notified (msm s)) i false |} (vacant s) (alive s)
+        mmk (mx s) (rings s) {| wakers := wakers (msm s); keep := keep (msm s); wlock := wlock (msm s); notified := upd (notified (msm s)) i false |} (vacant s) (alive s)
             (upd (mthr s) t (MDrive i)) (mlog s)
       else s
   | MCreate =>
       match vacant s with
       | [] => mfinish s t MNoStream MIdle
       | id :: rest =>
-          mmk (rings s) {| wakers := wakers (msm s); keep := upd (keep (msm s)) id true; wlock := wlock (msm s); notified := notified (msm s) |}
+          mmk (mkx (arr_of rest) (ucnt (mx s) + 1) (ccnt (mx s) + 1) (fcnt (mx s)) (slock (mx s)) (vlock (mx s)))
+              (rings s) {| wakers := wakers (msm s); keep := upd (keep (msm s)) id true; wlock := wlock (msm s); notified := notified (msm s) |}
               rest (upd (alive s) id true) (upd (mthr s) t MIdle) (mlog s ++ [(t, MCreated (Z.of_nat id))])
       end
   | MDrop i =>
-      mmk (rings s) {| wakers := upd (wakers (msm s)) i false; keep := keep (msm s); wlock := wlock (msm s); notified := notified (msm s) |}
+      mmk (mkx (arr_of (vacant s ++ [i])) (ucnt (mx s) - 1) (ccnt (mx s)) (fcnt (mx s) + 1) (slock (mx s)) (vlock (mx s)))
+          (rings s) {| wakers := upd (wakers (msm s)) i false; keep := keep (msm s); wlock := wlock (msm s); notified := notified (msm s) |}
           (vacant s ++ [i]) (upd (alive s) i false) (upd (mthr s) t MIdle) (mlog s ++ [(t, MDropped i)])
   | MNo => mfinish s t MNoStream MIdle
-  | MCount => mfinish s t (MCountR (Z.of_nat (M - length (vacant s)))) MIdle      (* used_streams_count.load *)
+  | MCount => mfinish s t (MCountR (ucnt (mx s))) MIdle      (* used_streams_count.load *)
+  (* create_stream_id, one access at a time *)
+  | KC1 => mmk (mkx (usedarr (mx s)) (ucnt (mx s)) (ccnt (mx s) + 1) (fcnt (mx s)) (slock (mx s)) (vlock (mx s))) (rings s) (msm s) (vacant s) (alive s) (upd (mthr s) t KC2) (mlog s)
+  | KC2 => mmk (mkx (usedarr (mx s)) (ucnt (mx s) + 1) (ccnt (mx s)) (fcnt (mx s)) (slock (mx s)) (vlock (mx s))) (rings s) (msm s) (vacant s) (alive s) (upd (mthr s) t KC3) (mlog s)
+  | KC3 => if vlock (mx s) then s
+           else let x := mkx (usedarr (mx s)) (ucnt (mx s)) (ccnt (mx s)) (fcnt (mx s)) (slock (mx s)) true in
+                match vacant s with
+                | [] => mmk x (rings s) (msm s) [] (alive s) (upd (mthr s) t (KC4 None)) (mlog s)
+                | id :: rest => mmk x (rings s) (msm s) rest (alive s) (upd (mthr s) t (KC4 (Some id))) (mlog s)
+                end
+  | KC4 o => let x := mkx (usedarr (mx s)) (ucnt (mx s)) (ccnt (mx s)) (fcnt (mx s)) (slock (mx s)) false in
+             match o with
+             | Some id => mmk x (rings s) (msm s) (vacant s) (alive s) (upd (mthr s) t (KC5 id)) (mlog s)
+             | None => mmk x (rings s) (msm s) (vacant s) (alive s) (upd (mthr s) t MIdle) (mlog s ++ [(t, MNoStream)])   (* the code panics here *)
+             end
+  | KC5 id => mmk (mx s) (rings s) {| wakers := wakers (msm s); keep := upd (keep (msm s)) id true; wlock := wlock (msm s); notified := notified (msm s) |}
+                  (vacant s) (alive s) (upd (mthr s) t (KSL (MCreated (Z.of_nat id)))) (mlog s)
+  (* report_stream_dropped *)
+  | KD1 i => if wlock (msm s) then s
+             else mmk (mx s) (rings s) {| wakers := wakers (msm s); keep := keep (msm s); wlock := true; notified := notified (msm s) |} (vacant s) (alive s) (upd (mthr s) t (KD2 i)) (mlog s)
+  | KD2 i => mmk (mx s) (rings s) {| wakers := upd (wakers (msm s)) i false; keep := keep (msm s); wlock := wlock (msm s); notified := notified (msm s) |} (vacant s) (alive s) (upd (mthr s) t (KD3 i)) (mlog s)
+  | KD3 i => mmk (mx s) (rings s) {| wakers := wakers (msm s); keep := keep (msm s); wlock := false; notified := notified (msm s) |} (vacant s) (alive s) (upd (mthr s) t (KD4 i)) (mlog s)
+  | KD4 i => mmk (mkx (usedarr (mx s)) (ucnt (mx s)) (ccnt (mx s)) (fcnt (mx s) + 1) (slock (mx s)) (vlock (mx s))) (rings s) (msm s) (vacant s) (alive s) (upd (mthr s) t (KD5 i)) (mlog s)
+  | KD5 i => mmk (mkx (usedarr (mx s)) (ucnt (mx s) - 1) (ccnt (mx s)) (fcnt (mx s)) (slock (mx s)) (vlock (mx s))) (rings s) (msm s) (vacant s) (alive s) (upd (mthr s) t (KD6 i)) (mlog s)
+  | KD6 i => if vlock (mx s) then s
+             else mmk (mkx (usedarr (mx s)) (ucnt (mx s)) (ccnt (mx s)) (fcnt (mx s)) (slock (mx s)) true) (rings s) (msm s) (vacant s ++ [i]) (alive s) (upd (mthr s) t (KD7 i)) (mlog s)
+  | KD7 i => mmk (mkx (usedarr (mx s)) (ucnt (mx s)) (ccnt (mx s)) (fcnt (mx s)) (slock (mx s)) false) (rings s) (msm s) (vacant s) (alive s) (upd (mthr s) t (KSL (MDropped i))) (mlog s)
+  (* sync_vacant_and_used_streams: lock, snapshot of the vacant queue, rewrite of used_streams cell by cell, unlock *)
+  | KSL r => if slock (mx s) then s
+             else mmk (mkx (usedarr (mx s)) (ucnt (mx s)) (ccnt (mx s)) (fcnt (mx s)) true (vlock (mx s))) (rings s) (msm s) (vacant s) (alive s)
+                      (upd (mthr s) t (KSW r (used_list (vacant s)) 0)) (mlog s)
+  | KSW r snap j =>
+      mmk (mkx (upd (usedarr (mx s)) j (nth j snap MAXID)) (ucnt (mx s)) (ccnt (mx s)) (fcnt (mx s)) (slock (mx s)) (vlock (mx s))) (rings s) (msm s) (vacant s) (alive s)
+          (upd (mthr s) t (if (S j <? M)%nat then KSW r snap (S j) else KSU r)) (mlog s)
+  | KSU r =>
+      mmk (mkx (usedarr (mx s)) (ucnt (mx s)) (ccnt (mx s)) (fcnt (mx s)) false (vlock (mx s))) (rings s) (msm s) (vacant s)
+          (match r with MCreated id => upd (alive s) (Z.to_nat id) true | _ => alive s end) (upd (mthr s) t MIdle) (mlog s ++ [(t, r)])
   end.
 
 Definition mstart (s : mst) (t : nat) (o : mop) : mst :=
@@ -116,12 +163,14 @@ Definition mstart (s : mst) (t : nat) (o : mop) : mst :=
   | MIdle =>
       match o with
       | MoSend v => send_next s t v 0
-      | MoPoll i => if alive s i then mmk (upd (rings s) i (start (rings s i) t OpCons)) (msm s) (vacant s) (alive s) (upd (mthr s) t (MPollQ i false)) (mlog s)
+      | MoPoll i => if alive s i then mmk (mx s) (upd (rings s) i (start (rings s i) t OpCons)) (msm s) (vacant s) (alive s) (upd (mthr s) t (MPollQ i false)) (mlog s)
                     else msetpc s t MNo
       | MoDrive i => if alive s i then msetpc s t (MDrive i) else msetpc s t MNo
       | MoCreate => msetpc s t MCreate
       | MoDrop i => if alive s i then msetpc s t (MDrop i) else msetpc s t MNo
       | MoCount => msetpc s t MCount
+      | MoCreateS => if existsb (fun i => negb (alive s i)) (seq 0 M) then msetpc s t KC1 else msetpc s t MNo
+      | MoDropS i => if alive s i then mmk (mx s) (rings s) (msm s) (vacant s) (upd (alive s) i false) (upd (mthr s) t (KD1 i)) (mlog s) else msetpc s t MNo
       end
   | _ => s
   end.
@@ -145,11 +194,24 @@ Definition mobs (s : mst) (t : nat) : list Z :=
   | MReg i RS _ => acc t (L_NOTIFIED + Z.of_nat i) K_WAKE 0 (-1) true
   | MParked i => acc t (L_NOTIFIED + Z.of_nat i) K_PARKED (b2z (notified (msm s) i)) (-1) true
   | MCreate | MDrop _ | MNo => acc t 2 K_YIELD 0 (-1) true
-  | MCount => acc t L_USEDCNT K_LOAD (Z.of_nat (M - length (vacant s))) (-1) true
+  | MCount => acc t L_USEDCNT K_LOAD (ucnt (mx s)) (-1) true
+  | KC1 => acc t 263 K_FAA (ccnt (mx s)) (ccnt (mx s) + 1) true
+  | KC2 => acc t L_USEDCNT K_FAA (ucnt (mx s)) (ucnt (mx s) + 1) true
+  | KC3 | KD6 _ => if vlock (mx s) then acc t 265 K_CAS 1 (-1) false else acc t 265 K_CAS 0 1 true
+  | KC4 _ | KD7 _ => acc t 265 K_STORE 0 0 true
+  | KC5 id => acc t (L_KEEP + Z.of_nat id) K_KEEP_W 1 (-1) true
+  | KD1 _ => if wlock (msm s) then acc t L_WLOCK K_CAS 1 (-1) false else acc t L_WLOCK K_CAS 0 1 true
+  | KD2 i => acc t (L_WAKERS + Z.of_nat i) K_WAKERS_W 0 (-1) true
+  | KD3 _ => acc t L_WLOCK K_STORE 0 0 true
+  | KD4 _ => acc t 264 K_FAA (fcnt (mx s)) (fcnt (mx s) + 1) true
+  | KD5 _ => acc t L_USEDCNT K_FAS (ucnt (mx s)) (ucnt (mx s) - 1) true
+  | KSL _ => if slock (mx s) then acc t 261 K_CAS 1 (-1) false else acc t 261 K_CAS 0 1 true
+  | KSW _ snap j => acc t (L_USED + Z.of_nat j) K_USED_W (nth j snap MAXID) (-1) true
+  | KSU _ => acc t 261 K_STORE 0 0 true
   end.
 
 Definition minit : mst :=
-  {| rings := fun _ => init; msm := {| wakers := fun _ => false; keep := fun _ => false; wlock := false; notified := fun _ => false |};
+  {| mx := mkx (fun _ => MAXID) 0 0 0 false false; rings := fun _ => init; msm := {| wakers := fun _ => false; keep := fun _ => false; wlock := false; notified := fun _ => false |};
      vacant := seq 0 M; alive := fun _ => false; mthr := fun _ => MIdle; mlog := [] |}.
 
 Definition mres_code (r : mres) : list Z :=
@@ -189,10 +251,13 @@ Definition mdrain (s : mst) : list Z :=
                                       Z.of_nat i :: Z.of_nat (length p) :: p else []) (seq 0 M).
 End Multi.
 
-(* `pre` operations (creations / drops) are applied by the unscheduled driver before the run *)
-Definition run_multi_arc_atomic (N : Z) (M : nat) (k : nat) (progs : list (list mop)) (sched : list nat) : list Z :=
+(* `pre` operations (creations / drops) are applied by the unscheduled driver before the run; `probe`: the final record also
+   says how many of BUFFER_SIZE further sends the quiescent, drained channel accepts (all of them, on this kind) *)
+Definition run_multi_arc_atomic_gen (probe : bool) (N : Z) (M : nat) (k : nat) (progs : list (list mop)) (sched : list nat) : list Z :=
   let s0 := Nat.iter k (fun s => mstep N u32 i32 M (mstart M s 0%nat MoCreate) 0%nat) (minit M) in
-  let s0' := mmk (rings s0) (msm s0) (vacant s0) (alive s0) (mthr s0) [] in
+  let s0' := mmk (mx s0) (rings s0) (msm s0) (vacant s0) (alive s0) (mthr s0) [] in
   let '(s, p, lines) := mrun' N u32 i32 M s0' (fun t => nth t progs []) sched in
   let q := mquiet s p (length progs) in
-  concat lines ++ [9; b2z q] ++ (if q then mdrain M s else []) ++ [-1; 0].
+  concat lines ++ [9; b2z q] ++ (if q then mdrain M s else []) ++ [-1; 0] ++ (if q && probe then [-2; N] else []).
+Definition run_multi_arc_atomic := run_multi_arc_atomic_gen false.
+Definition run_multi_arc_atomic_probe := run_multi_arc_atomic_gen true.
